@@ -177,6 +177,19 @@ def step (v : Variant) (s : St) : Lbl → Option St
   | .prx ok => stepPrx v s ok
   | .disp reply => stepDisp s reply
 
+/-- **Overlapping connect** (passive TCP transport; NOT part of `step`): `TcpServerConnection` restarts its listener from an
+`on_disconnected` listener that is registered before the protocol's own one, i.e. while the old connection's thread is still at `discon`
+(…`join`, `clear`, and the reset of its flags).  A peer that connects in that window is accepted by the new server thread, which runs
+`_on_connected` (`connection_state.connect()`, `ProtocolDispatcher.start()`: new receiver thread, stop flag reset) concurrently with the old
+thread's teardown.  `step`/`run`/`Reachable` describe histories in which a connection is established only after the previous close sequence
+has finished (`connect` needs `tcp = done`); this function is what happens otherwise, used by the witness in `Props.C09`. -/
+def connectEarly (s : St) : Option St :=
+  if s.tcp = .discon ∨ s.tcp = .join ∨ s.tcp = .clear then
+    some { s with conn := true, prx := .idle, stopRx := false,
+                  disp := if s.disp = .notStarted then .idle else s.disp,
+                  fed := [], mark := s.delivered.length, rxErr := false, out := [] }
+  else none
+
 def run (v : Variant) : St → List Lbl → Option St
   | s, [] => some s
   | s, l :: ls => match step v s l with
